@@ -14,6 +14,8 @@ from ..report import Violation
 from ..ref import wlprint
 
 GAPS_US = [0, 400000, 999999, 1000000, 1000001, 1200000, 2500000]
+GAPS_EXTRA_US = [-3000, 0, 999999, 1000001, 2500000]      # a line stamped slightly before its predecessor (two threads, one stderr)
+EXTRAS = ['plain', 'discarded_first', 'chatter_first', 'quoted']
 SHIFTS_QUICK = [0, 1000000000, 492063955, 3261636706]
 SHIFTS_THOROUGH = SHIFTS_QUICK + [1, 2693726254, 10 ** 12, 4294967290000, 770203519, 999999999]
 TOL = 1e-4 + 1e-9     # one unit of the last displayed digit
@@ -36,6 +38,11 @@ def build_log(case):
         msgs.append((_m(t0, True, 'wl_display', 1, 'get_registry', [['new', 'wl_registry', 2]], tag(c)), False))
         msgs.append((_m(t0, True, 'wl_registry', 2, 'bind', [['int', 1], ['str', 'zz_s'], ['int', 1], ['new', None, 3]], tag(c)), pre_shown))
         msgs.append((_m(t0, True, 'wl_registry', 2, 'bind', [['int', 2], ['str', 'zz_h'], ['int', 1], ['new', None, 4]], tag(c)), False))
+    extra = case.get('extra')
+    if extra == 'quoted':
+        # a received message whose string argument holds a line of another log: its own time stamp counts, not the quoted one
+        inner = wlprint.render(_m(t0 + 5000000, True, 'wl_surface', 7, 'commit', [], None), d)
+        msgs.append((_m(t0 + 300000, False, 'wl_display', 1, 'error', [['nil'], ['int', 3], ['str', inner]], tag(1)), False))
     t = t0
     for i, (g, vis) in enumerate(zip(case['gaps'], case['visible'])):
         t += g
@@ -46,6 +53,18 @@ def build_log(case):
             msgs.append((_m(t, True, 'zz_h', 4, 'poke', [['int', i]], tag(c)), False))
     lines = [wlprint.render(m, d) for m, _ in msgs]
     return lines, [(m['t_us'], v) for m, v in msgs]
+
+
+def leading_lines(case):
+    """Lines that are not messages, with a time stamp of their own, before the first message: the time base is the
+    first message processed, not the first time stamp seen."""
+    extra = case.get('extra')
+    if extra not in ('discarded_first', 'chatter_first'):
+        return []
+    stamp = wlprint.render(_m(case['shift'] - 500000, False, 'wl_callback', 3, 'done', [['int', 5421]], None), case['dialect']).split(']')[0] + ']'
+    if extra == 'discarded_first':
+        return [stamp + ' {Default Queue} discarded wl_callback#3.done(5421)']
+    return [stamp + ' starting up, not a message']
 
 
 def filter_text(case):
@@ -101,6 +120,8 @@ def evaluate(case):
         if case['view'] == 'live':
             s = sut.Session(filt=filter_text(case), stop=case.get('stop'))
             out = []
+            for l in leading_lines(case):
+                s.feed_line(l)
             for l in lines:
                 o, e = s.feed_line(l)
                 out += o
@@ -117,7 +138,7 @@ def evaluate(case):
                 check_view(o, expected, t0, case, V, 'list of the live filter')
         else:
             s = sut.Session()
-            for l in lines:
+            for l in leading_lines(case) + lines:
                 s.feed_line(l)
             o, e = s.cmd('list ' + filter_text(case))
             check_view(o, expected, t0, case, V, 'list')
@@ -155,6 +176,14 @@ def gen_cases(tier):
                    'prelude_shown': False, 'stop': 'zz_s.poke(1)'}
             yield {'gaps': list(gaps), 'visible': list(vis), 'shift': shifts[2], 'dialect': 'mid', 'view': 'live', 'conns': 1,
                    'prelude_shown': False, 'stop': 'zz_h', 'then_list': True}
+    # lines that carry a time stamp without being the message it belongs to; times that run backwards by a little
+    for extra in EXTRAS:
+        for gaps in itertools.product(GAPS_EXTRA_US, repeat=n - 1):
+            for vis in itertools.product((True, False), repeat=n - 1):
+                for shift in (shifts[1], shifts[3]):
+                    for view in ('live', 'list'):
+                        yield {'gaps': list(gaps), 'visible': list(vis), 'shift': shift, 'dialect': 'cur' if extra != 'chatter_first' else 'oldc',
+                               'view': view, 'conns': 1, 'prelude_shown': False, 'extra': extra, 'then_list': view == 'live'}
     # two connections (tags need the current dialect) and a shown prelude, on a reduced gap set
     for gaps in itertools.product(GAPS_US, repeat=n):
         for vis in itertools.product((True, False), repeat=n):
